@@ -46,7 +46,7 @@ Proof. exact c03_old_no_sys_lemma. Qed.
 Print Assumptions C03_old_no_sys.
 
 (* ---------- the unguarded statement is false (faithful model; replayed on the real node, findings/C03.md) ---------- *)
-Definition wr (a k v : N) : diff := mkDiff [] [] [] [((a, k), v)] [].
+Definition wr (a k v : N) : diff := mkDiff [] [] [] [((a, k), v)] [] [].
 (* block 0 sets slot 1 of system contract 0x1 to 5, block 1 writes it back to zero *)
 Definition ops_sys_empty := [Store (wr 1 1 5); Store (wr 1 1 0)].
 (* ... block 2 writes slot 2 := 7: the contract is created again *)
@@ -91,7 +91,7 @@ Print Assumptions C03_old_sys_refuted.
 (* the guard is what these sequences violate, and a zero write that does NOT empty the contract satisfies it *)
 Example ex_sys_guard_needed :
   sys_guarded_new ops_sys_empty = false /\ sys_guarded_old ops_sys_empty = false /\
-  sys_guarded_new [Store (mkDiff [] [] [] [((1, 1), 5); ((1, 2), 6)] []); Store (wr 1 1 0); Revert; Store (wr 2 9 1); Revert; Revert] = true.
+  sys_guarded_new [Store (mkDiff [] [] [] [((1, 1), 5); ((1, 2), 6)] [] []); Store (wr 1 1 0); Revert; Store (wr 2 9 1); Revert; Revert] = true.
 Proof. vm_compute. repeat split; reflexivity. Qed.
 
 (* "not found" iff the contract / class does not exist in the abstract state; unset slots are zero *)
@@ -184,9 +184,9 @@ Example ex_casm :
 Proof. vm_compute. repeat split; reflexivity. Qed.
 
 (* ---------- the statements are not vacuous ---------- *)
-Definition dA := mkDiff [(100, 10)] [] [(100, 1)] [((100, 1), 5); ((100, 2), 0)] [10].
-Definition dB := mkDiff [(101, 11)] [(100, 11)] [(100, 2)] [((100, 1), 0); ((101, 1), 7); ((100, 3), 9)] [11].
-Definition dC := mkDiff [] [] [(100, 3)] [((100, 1), 4); ((100, 3), 9)] [].
+Definition dA := mkDiff [(100, 10)] [] [(100, 1)] [((100, 1), 5); ((100, 2), 0)] [10] [].
+Definition dB := mkDiff [(101, 11)] [(100, 11)] [(100, 2)] [((100, 1), 0); ((101, 1), 7); ((100, 3), 9)] [11] [].
+Definition dC := mkDiff [] [] [(100, 3)] [((100, 1), 4); ((100, 3), 9)] [] [].
 Definition ops_ex := [Store dA; Store dB; Revert; Store dC; Revert; Revert; Store dA; Store dC; Revert; Store dB].
 
 Example ex_new_chain : snd (run_new ops_ex) = [dB; dA].
@@ -200,7 +200,7 @@ Example ex_new_reads :
   read_new (fst (run_new ops_ex)) (QDecl 11) 0 = NotFound.
 Proof. vm_compute. repeat split. Qed.
 (* legacy: a block whose only content is a zero write to a never-written slot is stored and reverted *)
-Definition dZ := mkDiff [] [] [] [((100, 2), 0)] [].
+Definition dZ := mkDiff [] [] [] [((100, 2), 0)] [] [].
 Example ex_old_revert_noop_zero : run_old [Store dA; Store dZ; Revert] = run_old [Store dA].
 Proof. vm_compute. reflexivity. Qed.
 Example ex_old_reads_with_noop_zero :
@@ -213,7 +213,7 @@ Proof. vm_compute. reflexivity. Qed.
 
 (* system contracts: creation by a storage write, zero write that leaves another slot, growth, revert across
    the creation and re-creation - guarded, read exactly on both backends *)
-Definition dS1 := mkDiff [(100, 10)] [] [] [((1, 1), 5); ((1, 2), 6); ((100, 1), 9)] [].
+Definition dS1 := mkDiff [(100, 10)] [] [] [((1, 1), 5); ((1, 2), 6); ((100, 1), 9)] [] [].
 Definition ops_sys := [Store dS1; Store (wr 1 1 0); Store (wr 2 7 3); Revert; Revert; Revert; Store (wr 1 3 4); Store dS1].
 Example ex_sys_guarded : sys_guarded_new ops_sys = true /\ sys_guarded_old ops_sys = true.
 Proof. vm_compute. split; reflexivity. Qed.
@@ -226,4 +226,22 @@ Example ex_sys_reads_old :
   let s := fst (run_old ops_sys) in
   read_old s (QSlot 1 3) 0 = Found 4 /\ read_old s (QSlot 1 1) 0 = Found 0 /\ read_old s (QSlot 1 1) 1 = Found 5 /\
   read_old s (QClass 1) 0 = Found 0 /\ read_old s (QClass 2) 1 = NotFound /\ read_head s (QNonce 1) = Found 0.
+Proof. vm_compute. repeat split; reflexivity. Qed.
+
+(* classes DELIVERED with a block for its deployed contracts (d_deliv): registered under the block's number like the
+   declared ones, gone after the block's revert, first writer wins when the class is known already *)
+Definition dD := mkDiff [(100, 10)] [] [] [] [] [10].
+Definition dE := mkDiff [(101, 10)] [] [] [] [11] [10].
+Definition ops_deliv := [Store dD; Revert; Store dA; Store dE].
+Example ex_deliv :
+  sys_guarded_new ops_deliv = true /\ snd (run_new ops_deliv) = [dE; dA] /\ snd (run_old ops_deliv) = [dE; dA] /\
+  read_head (fst (run_new [Store dD])) (QDecl 10) = Found 0 /\
+  read_head (fst (run_new [Store dD; Revert])) (QDecl 10) = NotFound /\
+  read_head (fst (run_old [Store dD; Revert])) (QDecl 10) = NotFound /\
+  read_new (fst (run_new ops_deliv)) (QDecl 10) 1 = Found 0 /\
+  read_old (fst (run_old ops_deliv)) (QDecl 11) 0 = NotFound /\ read_old (fst (run_old ops_deliv)) (QDecl 11) 1 = Found 1.
+Proof. vm_compute. repeat split; reflexivity. Qed.
+(* a delivered class must be the class of one of the block's deployed contracts (deliv_ok) *)
+Example ex_deliv_ok : valid_diffb st_empty dD = true /\ valid_diffb st_empty (mkDiff [(100, 11)] [] [] [] [] [10]) = false /\
+  valid_diffb st_empty (mkDiff [(100, 10)] [] [] [] [10] [10]) = false.
 Proof. vm_compute. repeat split; reflexivity. Qed.
